@@ -1,11 +1,11 @@
 """C03 — a synchronised pipeline computes the composition of its filters, frame for frame."""
 import logging
 from ..core import Violation
-from .. import pipeline, recvfeed, protocol, edgefeed
+from .. import pipeline, recvfeed, protocol, edgefeed, netfeed
 
 ID = 'C03'
-PROP_FILES = ['C03', 'C03Join', 'C03JoinMulti', 'EdgeRecv', 'EdgeSend', 'C03Edge', 'C03EdgeLive']
-MODULES = ['OFModel.Zmq.Receiver', 'OFModel.Zmq.Sender', 'OFModel.Zmq.Pair', 'OFModel.Zmq.PairReq', 'OFModel.FilterLoop', 'OFModel.Gen.Facts']
+PROP_FILES = ['C03', 'C03Join', 'C03JoinMulti', 'EdgeRecv', 'EdgeSend', 'C03Edge', 'C03EdgeLive', 'ChainSend', 'ChainRecv', 'C03Net', 'C03Tree']
+MODULES = ['OFModel.Zmq.Receiver', 'OFModel.Zmq.Sender', 'OFModel.Zmq.Pair', 'OFModel.Zmq.PairReq', 'OFModel.Zmq.Net', 'OFModel.FilterLoop', 'OFModel.Gen.Facts']
 RULE = ('MQNet pipelines (real MQ/ZMQSender/ZMQReceiver objects, thread-less event loop, virtual time): topologies drawn from chain / tee / tee-rejoin (2-3 branches) / '
         'independent join with 3-7 filters, behaviours from {pass, None on chosen ids (not on rejoined branches), {}, lone Frame, callable, add/rename topic}, '
         'processing times 0-300 ms (incl. slower than the 100 ms poll interval), all subscription forms, every consumer listed as required, message delays 0-90 ms. '
@@ -20,7 +20,7 @@ ASSUMPTIONS = ['partial: stage A component theorems are proved (publish-or-disca
                'of exactly one frame per subscribed topic of that source\'s block of the returned id (never a partial block), all carrying the returned id, the payload of the wire message and the mapped name, '
                '(ii) the returned ids are exactly the ids published by every source, none skipped below the frontier.  Hypothesis on the network: the block as delivered = the sent block filtered by the SUB prefixes '
                '(IsBlock / isBlock_of_sent; frames are abstracted through decodeTopic, the ZeroMQ prefix match itself is not modelled).  NOT proved: ephemeral side sources, balanced receivers, recv(state) jumps, '
-               'an explicit subscription with an empty list, progress (liveness) of joins, and the DAG refinement (C) - the pipeline level is explored, with the composition reference as oracle',
+               'an explicit subscription with an empty list, progress (liveness) of joins, and the DAG refinement (C) for rejoins / joins - that part of the pipeline level is explored, with the composition reference as oracle',
                'EDGE refinement (stage B) PROVED on the closed edge model OFModel/Zmq/PairReq.lean (OFProps/C03Edge.lean, C03EdgeLive.lean, helper files EdgeRecv/EdgeSend): one source-filter publisher with '
                'outs_required=[R], one synchronised all-topics consumer R, a flag subUp (PUB/SUB connection established; while false every publish is lost for R, requests always get through; connectSub at any time, late or never), '
                'a second client X sending any ephemeral request / any synchronised request for an already published id at any time; single topic main per frame set, frame k has payload k; every call has timeout 0; no restarts; '
@@ -30,6 +30,7 @@ ASSUMPTIONS = ['partial: stage A component theorems are proved (publish-or-disca
                '_tracked_only_when_heard (handshake invariant, every event), C03_edge_progress (pair alone, connection up: [recv, send, recv, send, recv] returns frame n; a schedule is exhibited, fairness not proved), kernel-evaluated negative witnesses '
                'C03_edge_needs_required (required=[] + second client) and C03_edge_needs_new_flag (new flag dropped, pair alone) on the same step function, and C03_edge_pair_alone_any_required (in the pair ALONE outs_required is never exercised: '
                'nothing is published before some client is tracked and the only client is tracked only after it heard).  NOT modelled there: MQ.send wrapping frames in a callable (stage A3), multi-topic blocks, HWM, several consumers as full automata, restarts',
+               'stage C PROVED on the network model OFModel/Zmq/Net.lean for CHAINS (C03_net_chain_composition, OFProps/C03Net.lean) and TEES / TREES (C03_net_tree_composition, C03_net_tree_edge, OFProps/C03Tree.lean: node 0 the source, every other node subscribed to ONE earlier node, any number of consumers per publisher): arbitrary process functions whose results are dicts of distinct non-empty topic names (ProcNames), every restart-free schedule of recv i | send i @t (no bound, any clock readings): for every node the log of (id, [(topic, content)]) sets its process() was called with is a PREFIX of the source frames 0..N-1 threaded through the process functions on the path to it (Loop.processFrames normalisation: None drops the frame downstream, {} = empty set, lone Frame = main, callable = its value; hidden topics removed; ids = the source\'s consecutive ids of the surviving frames, handed on unchanged); C03_net_chain_deferred_at_send: the callable is evaluated only in the send that publishes its value (or frees the loop on None). Helper theorems send0_chain (exact outcome of one MQ.send) and call0_chain (single-source consumer over a queue of complete multi-topic blocks).  In Net delivery is immediate and every SUB connection is up from the start, so NO outs_required is needed there (a late consumer finds the blocks in its queue); required matters with the slow joiner, proved at edge level only (PairReq).  NOT proved at stage C: rejoins / independent joins, restarts, loss / HWM / connection timing',
                'MQNet replaces Filter.loop_once by a 10-line replica around the real MQ object (every call timeout=0, re-armed each poll interval or on arrival); libzmq by the in-process fake',
                'message delays below the 100 ms request interval, lossless channels, no restarts (C03 hypotheses)']
 TRUSTED = ['composition reference = the same Python process functions applied to the source sequence (harness/ofverif/pipeline.py: reference)']
@@ -207,6 +208,41 @@ def edge_campaign(ctx, n):
     res.extra['edge'] = stats
 
 
+def chain_campaign(ctx, n):
+    """stage C on chains: real MQ objects vs OF.Net event by event; oracle = prefix of the composition reference"""
+    res, rng = ctx.result, ctx.rng
+    trials = [c['trial'] for c in ctx.corpus if c.get('feed') == 'netchain']
+    if ctx.replay and ctx.replay.get('case', {}).get('feed') == 'netchain':
+        trials = [ctx.replay['case']['trial']]; n = 0
+    for k in range(n): trials.append(netfeed.gen_chain_trial(rng) if k % 3 else netfeed.gen_tree_trial(rng))      # every third one a tee / tree (C03_net_tree_composition)
+    impl = [netfeed.run_impl(t) for t in trials]
+    model = ctx.driver.batch([netfeed.model_request(t) for t in trials]) if ctx.driver and trials else None
+    sets = sink_sets = 0
+    for idx, (t, (obs, handed, pubmid)) in enumerate(zip(trials, impl)):
+        L = len(t['topo']['ups'])
+        ns = sum(1 for hd in handed if hd[1] > 0); nk = sum(1 for hd in handed if hd[1] == L - 1)
+        sets += ns; sink_sets += nk
+        shaped = any(b.get('skip') or b.get('empty') or b.get('dnone') or b.get('defer') or b.get('lone') or b['kind'] not in ('src', 'pass') for b in t['topo']['behs'])
+        res.note({'feed': 'netchain', 'length': L, 'behs': t['topo']['behs'], 'events': len(t['evs']), 'sets_handed': ns, 'at_sink': nk}, nontrivial=bool(shaped and nk))
+        case = {'feed': 'netchain', 'trial': t}
+        orc = netfeed.tree_oracle if t['topo'].get('family') == 'tree' else netfeed.chain_oracle
+        for key, what in orc(t, obs, handed)[:1]:
+            res.violations.append(Violation(key, what, case))
+        if model is None: continue
+        r = model[idx]
+        if 'err' in r:
+            res.disagreements.append({'point': 'net.run', 'case': case, 'impl': None, 'model': r}); continue
+        m, _ = netfeed.canon_model(r, t)
+        o = netfeed.canon_impl(obs)
+        m = m[:len(o)]
+        if m != o:
+            ci = next((i for i, (a, b) in enumerate(zip(o, m)) if a != b), min(len(o), len(m)))
+            res.disagreements.append({'point': f'MQ chain event #{ci} {t["evs"][ci] if ci < len(t["evs"]) else None} vs OF.Net.step', 'case': case,
+                                      'impl': o[ci][0] if ci < len(o) else None, 'model': m[ci][0] if ci < len(m) else None})
+        else: res.traces_validated += 1
+    res.extra['chain_stats'] = {'trials': len(trials), 'trees': sum(1 for t in trials if t['topo'].get('family') == 'tree'), 'sets_handed': sets, 'at_last_node': sink_sets}
+
+
 def run(ctx):
     logging.disable(logging.CRITICAL)
     res, rng = ctx.result, ctx.rng
@@ -217,7 +253,7 @@ def run(ctx):
     seeds = [c.get('net_seed', 0) for c in ctx.corpus if 'topo' in c]
     if ctx.replay and ctx.replay.get('case', {}).get('topo'):
         topos = [ctx.replay['case']['topo']]; seeds = [ctx.replay['case'].get('net_seed', 0)]; n = 0
-    if ctx.replay and ctx.replay.get('case', {}).get('feed') in ('recvmulti', 'edge'):
+    if ctx.replay and ctx.replay.get('case', {}).get('feed') in ('recvmulti', 'edge', 'netchain'):
         topos, seeds, n = [], [], 0
     for _ in range(n):
         topos.append(pipeline.gen_topology(rng, c03=True)); seeds.append(rng.randrange(10**9))
@@ -265,3 +301,5 @@ def run(ctx):
     res.extra['receiver_traces_replayed'] = len(traces)
     res.extra['process_frames_cases'] = len(cases)
     res.extra['level_detail'] = 'component theorems proved; pipeline composition explored (MQNet) - see assumptions'
+    # stage C on chains: the statement of C03_net_chain_composition on real MQ objects
+    chain_campaign(ctx, 4500 if ctx.thorough else (1200 if ctx.escalate else 390))
